@@ -140,24 +140,30 @@ pub fn run(op: &str, e: &Value, ctx: &mut Ctx) -> Result<Value, String> {
             Ok(json!({"before": jbytes(&before), "after": jbytes(&after)}))
         }
         "mem.zeroize" => {
+            // in = [secret, secret', ...]: the same type zeroized from DIFFERENT secret values.  r: the value of the first through the public
+            // encoder; raws: each object's storage after zeroize().  Erased means: the documented value (r) and storage that no longer
+            // depends on what the object held (an encoder can hide a surviving coordinate, e.g. T of a point).
             use zeroize::Zeroize;
             let ty = e["ty"].as_str().ok_or("ty")?;
-            let b = arr32(inp(e, 0)?)?;
-            // r: the value through the public encoder; raw / raw_id: the object's storage after zeroize() and the storage of the
-            // value the documentation promises (the identity / zero), byte for byte - an encoder can hide a surviving coordinate
             fn raw<T>(x: &T) -> Vec<u8> { unsafe { std::slice::from_raw_parts(x as *const T as *const u8, std::mem::size_of::<T>()) }.to_vec() }
-            use curve25519_dalek::traits::Identity;
-            let (r, rw, rid) = match ty {
-                "Scalar" => { let mut s = Scalar::from_bytes_mod_order(b); s.zeroize(); (s.to_bytes().to_vec(), raw(&s), raw(&Scalar::ZERO)) }
-                "EdwardsPoint" => { let mut p = EdwardsPoint::mul_base(&Scalar::from_bytes_mod_order(b)); p.zeroize(); (p.compress().to_bytes().to_vec(), raw(&p), raw(&EdwardsPoint::identity())) }
-                "CompressedEdwardsY" => { let mut p = curve25519_dalek::edwards::CompressedEdwardsY(b); p.zeroize(); (p.to_bytes().to_vec(), raw(&p), raw(&curve25519_dalek::edwards::CompressedEdwardsY::identity())) }
-                "RistrettoPoint" => { let mut p = RistrettoPoint::mul_base(&Scalar::from_bytes_mod_order(b)); p.zeroize(); (p.compress().to_bytes().to_vec(), raw(&p), raw(&RistrettoPoint::identity())) }
-                "CompressedRistretto" => { let mut p = curve25519_dalek::ristretto::CompressedRistretto(b); p.zeroize(); (p.to_bytes().to_vec(), raw(&p), raw(&curve25519_dalek::ristretto::CompressedRistretto::identity())) }
-                "MontgomeryPoint" => { let mut p = MontgomeryPoint(b); p.zeroize(); (p.to_bytes().to_vec(), raw(&p), raw(&MontgomeryPoint([0u8; 32]))) }
-                "StaticSecret" => { let mut s = x25519_dalek::StaticSecret::from(b); s.zeroize(); (s.to_bytes().to_vec(), raw(&s), raw(&x25519_dalek::StaticSecret::from([0u8; 32]))) }
-                _ => return Err("ty".into()),
-            };
-            Ok(json!({"r": jbytes(&r), "raw": jbytes(&rw), "raw_id": jbytes(&rid)}))
+            let mut r0: Option<Vec<u8>> = None;
+            let mut raws = Vec::new();
+            for k in 0..n_in(e) {
+                let b = arr32(inp(e, k)?)?;
+                let (r, rw) = match ty {
+                    "Scalar" => { let mut s = Scalar::from_bytes_mod_order(b); s.zeroize(); (s.to_bytes().to_vec(), raw(&s)) }
+                    "EdwardsPoint" => { let mut p = EdwardsPoint::mul_base(&Scalar::from_bytes_mod_order(b)); p.zeroize(); (p.compress().to_bytes().to_vec(), raw(&p)) }
+                    "CompressedEdwardsY" => { let mut p = curve25519_dalek::edwards::CompressedEdwardsY(b); p.zeroize(); (p.to_bytes().to_vec(), raw(&p)) }
+                    "RistrettoPoint" => { let mut p = RistrettoPoint::mul_base(&Scalar::from_bytes_mod_order(b)); p.zeroize(); (p.compress().to_bytes().to_vec(), raw(&p)) }
+                    "CompressedRistretto" => { let mut p = curve25519_dalek::ristretto::CompressedRistretto(b); p.zeroize(); (p.to_bytes().to_vec(), raw(&p)) }
+                    "MontgomeryPoint" => { let mut p = MontgomeryPoint(b); p.zeroize(); (p.to_bytes().to_vec(), raw(&p)) }
+                    "StaticSecret" => { let mut s = x25519_dalek::StaticSecret::from(b); s.zeroize(); (s.to_bytes().to_vec(), raw(&s)) }
+                    _ => return Err("ty".into()),
+                };
+                if r0.is_none() { r0 = Some(r.clone()); } else if r0.as_ref() != Some(&r) { raws.push(vec![0xEE]); }
+                raws.push(rw);
+            }
+            Ok(json!({"r": jbytes(&r0.unwrap_or_default()), "raws": raws.iter().map(|x| jbytes(x)).collect::<Vec<_>>()}))
         }
         _ => Err(format!("unknown op {op}")),
     }
